@@ -10,6 +10,43 @@ conditions, float %, the sun vector).  Numeric property, partial by nature (DESI
 closeness to the independent ephemeris, time-zone shift invariance and the noon claim on the real code
 are SAMPLED SUB-CLAIMS (tests), reported under sampled_subclaims, never counted as theorems.
 
+ROUND 3 (histories, failure paths, process order, consumers, rare classes):
+* Object state machine: Model/SunObj.lean (`Sun.Obj`, `Sun.Op`, `Sun.step`, `Sun.run`; five slots, no hidden state),
+  driven step by step by the `hist` op of drv_c05 against ONE real Sunpath object: every setter (accepted, refused by
+  assertion, unconvertible argument), every read entry point, the getters, and every other public method (analemmas,
+  sunrise/sunset, day arcs, 2D projections, the daylight-saving setter; returning or raising) as state-neutral ops.
+  The pinned code: the four numeric setters assign before they assert (known finding C05-refused-setter-applied,
+  theorem C05_refused_setter_counterexample).  Which order each setter has is READ OFF THE SOURCE on every run
+  (`_setter_order`, part of the translator tie) and parameterises the model (`Sun.Validate`), so the correspondence
+  stays exact on the pinned tree and on a tree where the setters are repaired (fixes/C11_setters_validate_first.patch
+  repairs exactly this; then the finding no longer fires and C05_refused_setter_preserves /
+  C05_history_refines_fresh_validating are the theorems that apply).
+* History oracle (independent of the model): after every step the suns of the used object = the suns of a FRESH
+  object built from the state the user has established (refused operations establish nothing) = the independent
+  ephemeris for that state; failures name the step and the sun that is wrong.
+* Process order: a slice of cases (one calendar instant under configurations differing in one respect, histories,
+  consumers, refused calls) runs in 3-4 fresh Python subprocesses in different orders (rare classes first in one);
+  every case must pass and compute bit-identical values in all of them; a main-stream failure that passes alone in a
+  fresh process is re-reported as an `order` replay ({"order": [...]}, shrunk).
+* Consumers of each modelled producer (each exercised by correspondence `C` and/or oracle `O`):
+    _calculate_solar_geometry      -> calculate_sun_from_date_time (C geom, sun; O ephemeris);
+                                      calculate_sunrise_sunset_from_datetime (C11; here a state-neutral history op)
+    _calculate_solar_time          -> calculate_sun_from_date_time (C soltime, sun; O ephemeris, tzshift)
+    calculate_sun_from_date_time   -> calculate_sun, _from_hoy, _from_moy (C sun_mdh/hoy/moy, hist; O entry),
+                                      analemma_suns, hourly_analemma_suns (O consumers), hourly_analemma_polyline3d/2d,
+                                      day_arc3d (O consumers: arc end points), day_polyline2d, monthly_day_arc3d/2d
+                                      (history ops)
+    time_zone / latitude / longitude / north_angle / is_leap_year setters
+                                   -> every read (C hist; O history), getters (C hist)
+    Location (ctor, setters, duplicate, to_dict/from_dict, to_idf/from_idf, from_location)
+                                   -> Sunpath.from_location (O location)
+    Sun.__init__/_calculate_sun_vector -> sun_vector, sun_vector_reversed, is_during_day, azimuth_from_y_axis (C vec;
+                                      O vector, sunvec), position_3d, position_2d (both projections),
+                                      altitude/azimuth_in_radians, hoy (O consumers)
+* Rare classes as strata (counted in evidence): exact zeros / -0.0 / ints for latitude, longitude, zone, north; zone 0
+  away from Greenwich; exact bounds (+-90, +-180, -12/14, +-360); leap year first; 29 Feb on both year kinds; refused
+  dates / hours / minutes of the year; Location without zone; solar-time flag.
+
 The independent ephemeris below is the low-precision algorithm of The Astronomical Almanac (section C,
 "Low precision formulas for the Sun's coordinates", 1950-2050) with Saemundsson's refraction formula;
 nothing of it is taken from NOAA's series or from ladybug.
@@ -23,8 +60,8 @@ from harness.core import err_name, run_oracle_cases
 
 PROP = 'C05'
 PROOF_MODULES = ['Ladybug.Props.C05', 'Ladybug.Proofs.C05Gen']
-GREP_MODULES = ['Ladybug.Gen.SunFormulas', 'Ladybug.Py', 'Ladybug.Transc', 'Ladybug.RealInst', 'Ladybug.Model.Cal', 'Ladybug.Model.Sun',
-                'Ladybug.Proofs.CalLemmas', 'Ladybug.Props.C08', 'Ladybug.Proofs.C05Real', 'Ladybug.Proofs.C05Lemmas', 'Ladybug.Drv.C05', 'Ladybug.DrvCore']
+GREP_MODULES = ['Ladybug.Gen.SunFormulas', 'Ladybug.Py', 'Ladybug.Transc', 'Ladybug.RealInst', 'Ladybug.Model.Cal', 'Ladybug.Model.Sun', 'Ladybug.Model.SunObj',
+                'Ladybug.Proofs.CalLemmas', 'Ladybug.Props.C08', 'Ladybug.Proofs.C05Real', 'Ladybug.Proofs.C05Lemmas', 'Ladybug.Proofs.C05Obj', 'Ladybug.Drv.C05', 'Ladybug.DrvCore']
 RULE = ('correspondence: Float instance of the model vs the real functions at the public API '
         '(calculate_sun, _from_hoy, _from_moy, _from_date_time -> datetime, altitude, azimuth, sun_vector, '
         'sun_vector_reversed, is_during_day, azimuth_from_y_axis) and at the anchored helpers '
@@ -38,7 +75,12 @@ RULE = ('correspondence: Float instance of the model vs the real functions at th
         'continued by the cotangent law when below the horizon (no standard refraction model is defined '
         'there), azimuth within 0.05 deg of great-circle distance (0.05/cos(altitude)); same sun by the three '
         'entry points; tz+clock shift within 0.01 deg; solar noon due south/north and highest; vector identities '
-        'within 1e-12')
+        'within 1e-12; histories on ONE object (setters accepted / refused / unconvertible, reads through all entry '
+        'points, getters, other methods returning or raising; the same questions asked again after every change): model '
+        'state machine vs the object step by step, and used object = fresh object of the established state = ephemeris; '
+        'consumers (analemmas, positions, arcs) report the producer\'s suns; from_location over all ways of making a '
+        'Location; refused calls stay refused; 3-4 fresh subprocesses run one slice in different orders (rare classes '
+        'first) and must agree bit for bit')
 TRUSTED_BASE = [
     'translator tools/extract/pyexpr2lean.py + sun_formulas.py: that the emitted Lean expression denotes the Python '
     'expression (every generated piece is also run by the driver through the model it is proved equal to)',
@@ -52,6 +94,9 @@ TRUSTED_BASE = [
     'the independent ephemeris (Astronomical Almanac low-precision Sun + Saemundsson refraction, in this file) is '
     'the reference for the sampled sub-claim; its own stated precision is 0.01 deg (1950-2050)',
     'daylight saving is not exercised here (C11)',
+    'the object state machine (Model/SunObj.lean) is hand-written; it is tied to the code by the step-by-step history '
+    'correspondence only (generated histories of this run); methods other than setters/reads/getters are modelled as '
+    'state-neutral and their own results are not modelled (analemma suns are compared with the producer by the oracle)',
 ]
 ASSUMPTIONS = ['years 2016 (leap) / 2017 (normal) as fixed by ladybug DateTime',
                'is_solar_time suns are compared with the ephemeris only for time zones within one hour of '
@@ -67,6 +112,53 @@ def extract(ctx):
     from tools.extract import sun_formulas
     ctx.sun_gen = sun_formulas.extract()
     ctx.count('translated_pieces', len(ctx.sun_gen['translated']))
+    global _VALIDATE
+    _VALIDATE = _setter_order()
+    ctx.count('setters_validate_first', sum(_VALIDATE))
+
+
+_VALIDATE = None
+_SETTER_SLOTS = (('latitude', '_latitude'), ('longitude', '_longitude'), ('time_zone', '_time_zone'),
+                 ('north_angle', '_north_angle'))
+
+
+def _setter_order():
+    """Read off sunpath.py, for each numeric Sunpath setter, whether the range assertion stands BEFORE the first
+    assignment to the slot (True: a refused value never reaches the object) or after it (False: the pinned code).
+    The four flags parameterise the model's `step` (Sun.Validate)."""
+    import ast
+    import os
+    from tools.extract.common import ExtractError
+    path = os.path.join(core.REPO, 'ladybug', 'sunpath.py')
+    with open(path) as f:
+        tree = ast.parse(f.read())
+    cls = [n for n in tree.body if isinstance(n, ast.ClassDef) and n.name == 'Sunpath']
+    if not cls:
+        raise ExtractError('ladybug/sunpath.py: class Sunpath not found')
+    flags = []
+    for name, slot in _SETTER_SLOTS:
+        fn = None
+        for n in cls[0].body:
+            if isinstance(n, ast.FunctionDef) and n.name == name and any(
+                    isinstance(d, ast.Attribute) and d.attr == 'setter' for d in n.decorator_list):
+                fn = n
+        if fn is None:
+            raise ExtractError('ladybug/sunpath.py: setter Sunpath.%s not found' % name)
+        first_assign = first_assert = None
+        for i, st in enumerate(fn.body):
+            if isinstance(st, ast.Assert) and first_assert is None:
+                first_assert = i
+            for sub in ast.walk(st):
+                if isinstance(sub, (ast.Assign, ast.AugAssign)):
+                    targets = sub.targets if isinstance(sub, ast.Assign) else [sub.target]
+                    for t in targets:
+                        if isinstance(t, ast.Attribute) and t.attr == slot and first_assign is None:
+                            first_assign = i
+        if first_assign is None or first_assert is None or first_assign == first_assert:
+            raise ExtractError('ladybug/sunpath.py:%d Sunpath.%s setter: expected one top-level assert and an '
+                               'assignment to self.%s' % (fn.lineno, name, slot))
+        flags.append(first_assert < first_assign)
+    return tuple(flags)
 
 
 # ---------------------------------------------------------------------------------------------
@@ -393,6 +485,11 @@ def correspondence(ctx):
     _compare(ctx, 'vec', cases, lambda c: 'vec %s %s %s' % (_fbits(c[0]), _fbits(c[1]), _fbits(c[2])),
              lambda c: _show_sun(Sun(DateTime(1, 1, 0, 0), c[0], c[1], False, False, c[2])), circ)
 
+    # --- histories on one object, step by step against the model's object state machine (Sun.Obj / Sun.step)
+    hists = [_gen_history(rng, bm, False) for _ in range(ctx.n(1500, 10000))]
+    hists += [inp for op, inp in CORPUS if op == 'history']
+    _compare_histories(ctx, hists)
+
 
 # ---------------------------------------------------------------------------------------------
 # independent ephemeris (The Astronomical Almanac, low precision) + Saemundsson refraction
@@ -466,23 +563,44 @@ def _sun_from(inp):
     return sp
 
 
-def _check_ephemeris(inp):
-    leap = bool(inp.get('leap'))
-    lat, lon, tz = inp['lat'], inp['lon'], inp.get('tz')
-    solar = bool(inp.get('solar'))
-    moy = inp['moy']
+def _eph_expect(lat, lon, etz, leap, moy, solar):
+    """Ephemeris geometric altitude / azimuth for the instant named by (leap, moy) in zone `etz` (hours), or, with
+    `solar`, the instant at which the local apparent solar time at `lon` equals the clock reading."""
     r = _ref(leap, moy)
-    etz = _eff_tz(lon, tz)
     clock = r.hour + r.minute / 60.0
     jd = _jd0(r.year, r.month, r.day) + (clock - etz) / 24.0
     if solar:
         # the instant at which the local apparent solar time at this longitude equals the clock
-        # reading: two fixed-point steps on the ephemeris hour angle
+        # reading: fixed-point steps on the ephemeris hour angle
         jd = _jd0(r.year, r.month, r.day) + (clock - lon / 15.0) / 24.0
         for _ in range(3):
             _, _, ha, _ = _eph(lat, lon, jd)
             jd += ((15.0 * (clock - 12.0) - ha + 180.0) % 360.0 - 180.0) / 360.0
     h, az, ha, dec = _eph(lat, lon, jd)
+    return h, az
+
+
+def _eph_verdict(h, az, altitude, azimuth):
+    """The statement's first clause on one reported (altitude, azimuth): None | (what, required, observed)."""
+    lo, hi = _expected_altitude_band(h)
+    if not (lo <= altitude <= hi):
+        return ('altitude', 'altitude in [%.5f, %.5f] (ephemeris geometric altitude %.5f)' % (lo, hi, h),
+                'altitude %.5f azimuth %.5f' % (altitude, azimuth))
+    sep = _circ(azimuth, az) * math.cos(math.radians(h))
+    if sep > AZ_TOL:
+        return ('azimuth', 'azimuth %.5f within %.2f/cos(alt) (altitude %.4f)' % (az, AZ_TOL, h),
+                'azimuth %.5f' % azimuth)
+    if not (0.0 <= azimuth <= 360.0):
+        return ('azimuth-range', 'azimuth in [0, 360]', azimuth)
+    return None
+
+
+def _check_ephemeris(inp):
+    leap = bool(inp.get('leap'))
+    lat, lon, tz = inp['lat'], inp['lon'], inp.get('tz')
+    solar = bool(inp.get('solar'))
+    moy = inp['moy']
+    h, az = _eph_expect(lat, lon, _eff_tz(lon, tz), leap, moy, solar)
     regime = 'day' if h >= 5 else 'horizon' if h >= HORIZON else 'night'
     sig = {'solar': solar, 'regime': regime}
     try:
@@ -494,16 +612,9 @@ def _check_ephemeris(inp):
                 'sig': dict(sig, what='exception', exception=type(e).__name__,
                             branch='zenith-crash' if zen and isinstance(e, (ZeroDivisionError, ValueError))
                             else 'other')}
-    lo, hi = _expected_altitude_band(h)
-    if not (lo <= s.altitude <= hi):
-        return {'required': 'altitude in [%.5f, %.5f] (ephemeris geometric altitude %.5f)' % (lo, hi, h),
-                'observed': 'altitude %.5f azimuth %.5f' % (s.altitude, s.azimuth), 'sig': dict(sig, what='altitude')}
-    sep = _circ(s.azimuth, az) * math.cos(math.radians(h))
-    if sep > AZ_TOL:
-        return {'required': 'azimuth %.5f within %.2f/cos(alt) (altitude %.4f)' % (az, AZ_TOL, h),
-                'observed': 'azimuth %.5f' % s.azimuth, 'sig': dict(sig, what='azimuth')}
-    if not (0.0 <= s.azimuth <= 360.0):
-        return {'required': 'azimuth in [0, 360]', 'observed': s.azimuth, 'sig': dict(sig, what='azimuth-range')}
+    bad = _eph_verdict(h, az, s.altitude, s.azimuth)
+    if bad:
+        return {'required': bad[1], 'observed': bad[2], 'sig': dict(sig, what=bad[0])}
     return None
 
 
@@ -651,6 +762,919 @@ def _check_sunvec(inp):
     return None
 
 
+# ---------------------------------------------------------------------------------------------
+# round 3: operation histories on ONE Sunpath object, consumers of the sun producer, process order
+#
+# An op is a JSON list.  Setters: ['set_lat', v] ['set_lon', v] ['set_tz', v|None] ['set_north', v]
+# ['set_leap', v].  Reads: ['moy', m, solar] ['hoy', h, solar] ['mdh', mo, da, hour, solar]
+# ['dt', mo, da, h, mi, dtleap, solar] ['get'].  Every other public method of the object is an "other" op (its
+# own result belongs to C11 / C18 or to the `consumers` check below; here only its effect on later suns counts):
+# ['analemma', h, mi, daytime_only, solar, start, end, steps] ['hourly_analemma', daytime_only, solar, start, end,
+# steps] ['riseset', mo, da, depression, solar] ['day_arc', mo, da] ['day_poly2d', mo, da, projection]
+# ['poly2d', projection] ['monthly_arcs'] ['set_dsp', None|'x'].
+
+SETTERS = {'set_lat': 'lat', 'set_lon': 'lon', 'set_tz': 'tz', 'set_north': 'north'}
+READS = ('moy', 'hoy', 'mdh', 'dt')
+BOUNDS = {'lat': (-90.0, 90.0), 'lon': (-180.0, 180.0), 'tz': (-12.0, 14.0), 'north': (-360.0, 360.0)}
+VALID_VALUES = {
+    'lat': LATS + [0, 90, -90, 45, -0.0],
+    'lon': LONS + [0, 180, -180, -0.0, 15],
+    'tz': TZS + [0, -0.0, None, None, None, 14, -12, 0.0],
+    'north': NORTHS + [0, 360, -360, -0.0],
+}
+INVALID_VALUES = {
+    'lat': [90.0000001, -90.0000001, 91, -180.0, 1000.0],
+    'lon': [180.0000001, -180.0000001, 181, 360.0, -1000.0],
+    'tz': [14.0000001, -12.0000001, 15, -13, 24.0],
+    'north': [360.0000001, -360.0000001, 361, 720.0, -1000.0],
+}
+UNPARSABLE = ['abc', '', [], {}]
+
+
+def _parse_num(v):
+    """float(v) as the setters do it: ('ok', x) | ('value',) | ('type',)."""
+    if isinstance(v, bool) or isinstance(v, (int, float)):
+        return ('ok', float(v))
+    if isinstance(v, str):
+        try:
+            return ('ok', float(v))
+        except ValueError:
+            return ('value',)
+    return ('type',)
+
+
+def _spec_apply(st, op):
+    """The SPECIFICATION of one op on the state the user has established (dict lat lon tz north leap; tz is the
+    effective zone in hours).  Returns True (accepted), False (refused: the state is unchanged)."""
+    k = op[0]
+    if k in SETTERS:
+        f = SETTERS[k]
+        v = op[1]
+        if f == 'tz' and v is None:
+            st['tz'] = st['lon'] / 15.0
+            return True
+        p = _parse_num(v)
+        if p[0] != 'ok' or p[1] != p[1]:
+            return False
+        lo, hi = BOUNDS[f]
+        if not (lo <= p[1] <= hi):
+            return False
+        st[f] = p[1]
+        return True
+    if k == 'set_leap':
+        st['leap'] = bool(op[1])
+        return True
+    return True
+
+
+def _apply_real(sp, op):
+    """Execute one op on the real object; returns the op's result (exceptions propagate)."""
+    from ladybug.dt import DateTime, Time
+    k = op[0]
+    if k == 'set_lat':
+        sp.latitude = op[1]
+    elif k == 'set_lon':
+        sp.longitude = op[1]
+    elif k == 'set_tz':
+        sp.time_zone = op[1]
+    elif k == 'set_north':
+        sp.north_angle = op[1]
+    elif k == 'set_leap':
+        sp.is_leap_year = op[1]
+    elif k == 'set_dsp':
+        sp.daylight_saving_period = op[1]
+    elif k == 'moy':
+        return sp.calculate_sun_from_moy(op[1], op[2])
+    elif k == 'hoy':
+        return sp.calculate_sun_from_hoy(op[1], op[2])
+    elif k == 'mdh':
+        return sp.calculate_sun(op[1], op[2], op[3], op[4])
+    elif k == 'dt':
+        return sp.calculate_sun_from_date_time(DateTime(op[1], op[2], op[3], op[4], op[5]), op[6])
+    elif k == 'get':
+        return ('get', sp.latitude, sp.longitude, sp.time_zone, sp.north_angle, sp.is_leap_year)
+    elif k == 'analemma':
+        return sp.analemma_suns(Time(op[1], op[2]), op[3], op[4], op[5], op[6], op[7])
+    elif k == 'hourly_analemma':
+        return sp.hourly_analemma_suns(op[1], op[2], op[3], op[4], op[5])
+    elif k == 'riseset':
+        return sp.calculate_sunrise_sunset(op[1], op[2], op[3], op[4])
+    elif k == 'day_arc':
+        return sp.day_arc3d(op[1], op[2])
+    elif k == 'day_poly2d':
+        return sp.day_polyline2d(op[1], op[2], op[3])
+    elif k == 'poly2d':
+        return sp.hourly_analemma_polyline2d(op[1])
+    elif k == 'monthly_arcs':
+        return sp.monthly_day_arc3d()
+    else:
+        raise ValueError('unknown history op %r' % (k,))
+    return None
+
+
+def _new_sunpath(init):
+    from ladybug.sunpath import Sunpath
+    return Sunpath(init['lat'], init['lon'], init['tz'], init['north'])
+
+
+def _fresh_sunpath(st):
+    """A fresh object built from the established state."""
+    from ladybug.sunpath import Sunpath
+    sp = Sunpath(st['lat'], st['lon'], st['tz'], st['north'])
+    sp.is_leap_year = st['leap']
+    return sp
+
+
+def _moy_of(leap, mo, da, h, mi):
+    y = 2016 if leap else 2017
+    return int((datetime(y, mo, da, h, mi) - datetime(y, 1, 1)).total_seconds() // 60)
+
+
+def _valid_date(leap, mo, da):
+    try:
+        datetime(2016 if leap else 2017, mo, da)
+        return True
+    except ValueError:
+        return False
+
+
+def _question(rng, q, leap):
+    """One read op asking for the calendar instant q = (month, day, hour, minute) on an object whose established
+    year kind is `leap`."""
+    mo, da, h, mi = q
+    solar = rng.random() < 0.2
+    r = rng.random()
+    ok = _valid_date(leap, mo, da)
+    if r < 0.3 or not ok:
+        if ok or rng.random() < 0.5 or not _valid_date(True, mo, da):
+            return ['mdh', mo, da, h + mi / 60.0, solar]
+        return ['dt', mo, da, h, mi, True, solar]        # 29 Feb as a leap DateTime on a non-leap object
+    if r < 0.55:
+        dl = leap if rng.random() < 0.6 else (not leap)
+        if not _valid_date(dl, mo, da):
+            dl = leap
+        return ['dt', mo, da, h, mi, dl, solar]
+    m = _moy_of(leap, mo, da, h, mi)
+    if r < 0.8:
+        return ['moy', m, solar]
+    return ['hoy', m / 60.0, solar]
+
+
+def _gen_setter(rng, st):
+    f = rng.choice(['lat', 'lon', 'tz', 'tz', 'north', 'leap', 'leap', 'leap'])
+    if f == 'leap':
+        return ['set_leap', rng.choice([True, False, True, False, 1, 0])]
+    r = rng.random()
+    if r < 0.7:
+        v = rng.choice(VALID_VALUES[f]) if rng.random() < 0.6 else rng.uniform(*BOUNDS[f])
+    elif r < 0.9:
+        v = rng.choice(INVALID_VALUES[f])
+    else:
+        v = rng.choice(UNPARSABLE)
+    return ['set_' + f, v]
+
+
+def _gen_other(rng):
+    r = rng.random()
+    span = rng.choice([(1, 2), (2, 2), (3, 3), (0, 1), (12, 13), (6, 3), (2, 3)])
+    if r < 0.3:
+        return ['analemma', rng.randrange(24), rng.choice([0, 30]), rng.random() < 0.3, rng.random() < 0.2,
+                span[0], span[1], rng.choice([1, 2, 4, 29, 30, 40])]
+    if r < 0.45:
+        return ['hourly_analemma', rng.random() < 0.3, rng.random() < 0.2, span[0], span[1],
+                rng.choice([1, 2, 30, 40])]
+    if r < 0.6:
+        mo, da = rng.choice([(3, 21), (6, 21), (12, 21), (2, 29), (2, 30), (13, 1), (0, 5), (4, 31), (1, 1)])
+        return ['riseset', mo, da, rng.choice([0.5334, 0.0, 0.833, 6.0]), rng.random() < 0.3]
+    if r < 0.72:
+        mo, da = rng.choice([(3, 21), (6, 21), (12, 21), (2, 29), (13, 1), (9, 31)])
+        return ['day_arc', mo, da]
+    if r < 0.84:
+        mo, da = rng.choice([(3, 21), (6, 21), (2, 29), (13, 1)])
+        return ['day_poly2d', mo, da, rng.choice(['Orthographic', 'Stereographic', 'bad', 'bad'])]
+    if r < 0.88:
+        return ['poly2d', rng.choice(['bad', 'Stereographic'])]
+    if r < 0.92:
+        return ['monthly_arcs']
+    return ['set_dsp', rng.choice([None, 'x', 5])]
+
+
+def _rare_init(rng):
+    """Configurations of the rare classes (kind d): falsy values for every numeric argument, exact bounds,
+    integers instead of floats."""
+    lat = rng.choice([0, 0.0, -0.0, 90, -90, 45]) if rng.random() < 0.5 else rng.uniform(-90.0, 90.0)
+    lon = rng.choice([0, 0.0, -0.0, 180, -180, -21.9, 120]) if rng.random() < 0.5 else rng.uniform(-180.0, 180.0)
+    tz = rng.choice([0, 0.0, -0.0, 0, 14, -12, None])
+    north = rng.choice([0, 0.0, -0.0, 360, -360, 90])
+    return lat, lon, tz, north
+
+
+def _gen_history(rng, bm, for_oracle):
+    """A generated history: constructor arguments + ops.  After every setter / other op a probe follows (getters
+    and questions of a small pool that are asked again and again, through varying entry points).  For the oracle
+    a refused setter is directly followed by an accepted one of the same field (the state a refused setter leaves
+    is the known finding C05-refused-setter-applied, witnessed in the fixed corpus)."""
+    if rng.random() < 0.25:
+        lat, lon, tz, north = _rare_init(rng)
+        leap0 = rng.random() < 0.5
+    else:
+        lat, lon, tz, north, leap0 = _rand_cfg(rng)
+    init = {'lat': lat, 'lon': lon, 'tz': tz, 'north': north}
+    st = {'lat': float(lat), 'lon': float(lon), 'tz': _eff_tz(float(lon), tz), 'north': float(north), 'leap': False}
+    ops = []
+    pool = []
+    for _ in range(rng.choice([1, 2, 3])):
+        lq = rng.random() < 0.5
+        r = _ref(lq, _rand_moy(rng, lq, bm))
+        if (r.month, r.day) != (2, 29):
+            pool.append((r.month, r.day, r.hour, r.minute))
+    if rng.random() < 0.25 or not pool:
+        pool.append((rng.choice([2, 2, 3, 12]), rng.choice([29, 28, 1]), rng.randrange(24), rng.randrange(60)))
+    if rng.random() < 0.2:
+        pool.append((rng.choice([1, 3, 12]), rng.choice([1, 31]), rng.choice([0, 23]), rng.choice([0, 59])))
+
+    def probe():
+        if rng.random() < 0.5:
+            ops.append(['get'])
+        for q in rng.sample(pool, min(len(pool), rng.choice([1, 1, 2, 3]))):
+            ops.append(_question(rng, q, st['leap']))
+
+    if leap0:                      # the rare year kind first
+        ops.append(['set_leap', True])
+        st['leap'] = True
+    probe()
+    for _ in range(rng.randrange(3, 9)):
+        op = _gen_setter(rng, st) if rng.random() < 0.6 else _gen_other(rng)
+        ops.append(op)
+        ok = _spec_apply(st, op)
+        if for_oracle and not ok and op[0] in SETTERS:
+            f = SETTERS[op[0]]
+            op2 = ['set_' + f, rng.choice([x for x in VALID_VALUES[f] if x is not None])]
+            ops.append(op2)
+            _spec_apply(st, op2)
+        probe()
+    return {'init': init, 'ops': ops}
+
+
+def _op_token(op):
+    """The op as tokens of the model driver's `hist` request."""
+    k = op[0]
+    if k in SETTERS:
+        v = op[1]
+        tag = {'set_lat': 'sl', 'set_lon': 'so', 'set_tz': 'st', 'set_north': 'sn'}[k]
+        if v is None and k == 'set_tz':
+            return tag + ' none'
+        p = _parse_num(v)
+        return tag + ' ' + (_fbits(p[1]) if p[0] == 'ok' else 'bad:' + p[0])
+    if k == 'set_leap':
+        return 'sy ' + _b(bool(op[1]))
+    if k == 'moy':
+        return 'rm %d %s' % (op[1], _b(op[2]))
+    if k == 'hoy':
+        return 'rh %s %s' % (_fbits(op[1]), _b(op[2]))
+    if k == 'mdh':
+        return 'rd %d %d %s %s' % (op[1], op[2], _fbits(op[3]), _b(op[4]))
+    if k == 'dt':
+        return 'rt %d %d %d %d %s %s' % (op[1], op[2], op[3], op[4], _b(op[5]), _b(op[6]))
+    if k == 'get':
+        return 'g'
+    return 'x'
+
+
+def _hist_line(h):
+    i = h['init']
+    v = _VALIDATE if _VALIDATE is not None else _setter_order()
+    return 'hist %s %s %s %s %s %s %s %s ; %s' % (_b(v[0]), _b(v[1]), _b(v[2]), _b(v[3]), _fbits(i['lat']),
+                                                  _fbits(i['lon']), _tz_tok(i['tz']), _fbits(i['north']),
+                                                  ' ; '.join(_op_token(op) for op in h['ops']))
+
+
+def _show_step(op, res, exc):
+    k = op[0]
+    if k in READS:
+        return _show_sun(res) if exc is None else 'err:' + err_name(exc)
+    if k == 'get':
+        if exc is not None:
+            return 'err:' + err_name(exc)
+        return 'ok %s %s %s %s %s' % (_fbits(res[1]), _fbits(res[2]), _fbits(res[3]), _fbits(res[4]), _b(res[5]))
+    if k in SETTERS or k == 'set_leap':
+        return 'ok' if exc is None else 'err:' + err_name(exc)
+    return 'ok'                 # other ops: only their effect on the later steps is compared
+
+
+def _run_history_real(h):
+    """Per-step response strings of the real object, in the model driver's format."""
+    out = []
+    try:
+        sp = _new_sunpath(h['init'])
+    except Exception as e:
+        return ['err:' + err_name(e)]
+    for op in h['ops']:
+        try:
+            res, exc = _apply_real(sp, op), None
+        except Exception as e:
+            res, exc = None, e
+        out.append(_show_step(op, res, exc))
+    return out
+
+
+def _compare_histories(ctx, hists):
+    drv = ctx.driver()
+    lines = [_hist_line(h) for h in hists]
+    outs = drv.run(lines)
+    for h, line, mo in zip(hists, lines, outs):
+        ms = mo.split(' | ')
+        rs = _run_history_real(h)
+        ctx.compared += len(rs)
+        ctx.count('op:hist')
+        ctx.count('hist:steps', len(rs))
+        ctx.case(('hist', line), nontrivial=True)
+        if len(ms) != len(rs):
+            ctx.disagree('hist', {'history': h, 'line': line}, mo, ' | '.join(rs))
+            continue
+        for i, (a, b) in enumerate(zip(ms, rs)):
+            eq, exact = _same(a, b, (7, 15))
+            if exact:
+                ctx.count('bit_exact')
+            if b.startswith('err:'):
+                ctx.count('hist:refused_steps')
+            if not eq:
+                ctx.disagree('hist', {'history': h, 'step': i, 'op': h['ops'][i]}, a, b)
+                break
+    if hists:
+        ctx.sample({'op': 'hist', 'request': lines[0][:400], 'model': outs[0][:400]})
+
+
+def _near(a, b, tol=TOL, circular=False):
+    d = abs(a - b)
+    if circular:
+        d = min(d, abs(d - 360.0))
+    return d <= tol
+
+
+def _sun_diff(a, b):
+    """First observable in which two Sun objects differ (None when they agree)."""
+    da, db = a.datetime, b.datetime
+    if (da.month, da.day, da.hour, da.minute, da.leap_year) != (db.month, db.day, db.hour, db.minute, db.leap_year):
+        return 'datetime', (db.month, db.day, db.hour, db.minute, db.leap_year), \
+            (da.month, da.day, da.hour, da.minute, da.leap_year)
+    if not _near(a.altitude, b.altitude):
+        return 'altitude', b.altitude, a.altitude
+    if not _near(a.azimuth, b.azimuth, circular=True) and abs(b.altitude) < 89.999:
+        return 'azimuth', b.azimuth, a.azimuth
+    va, vb = a.sun_vector, b.sun_vector
+    if not (_near(va.x, vb.x) and _near(va.y, vb.y) and _near(va.z, vb.z)):
+        return 'sun_vector', (vb.x, vb.y, vb.z), (va.x, va.y, va.z)
+    if a.is_during_day != b.is_during_day and abs(b.altitude) > 1e-9:
+        return 'is_during_day', b.is_during_day, a.is_during_day
+    if not _near(a.north_angle, b.north_angle):
+        return 'north_angle', b.north_angle, a.north_angle
+    return None
+
+
+def _read_instant(op, st):
+    """(leap, moy) of the calendar instant a read op names on the established state (None when it names none)."""
+    k = op[0]
+    try:
+        if k == 'moy':
+            return st['leap'], int(op[1])
+        if k == 'hoy':
+            return st['leap'], int(round(op[1] * 60))
+        if k == 'mdh':
+            mi = int(round((op[3] - int(op[3])) * 60))
+            return st['leap'], _moy_of(st['leap'], op[1], op[2], int(op[3]), 0) + mi
+        if k == 'dt':
+            lp = bool(op[5]) or st['leap']
+            return lp, _moy_of(lp, op[1], op[2], op[3], op[4])
+    except (ValueError, OverflowError):
+        return None
+    return None
+
+
+def _check_history(inp):
+    """The property on one object's history: after every step, every sun the object reports is the sun of a FRESH
+    object built from the state the user has established (refused operations establish nothing), agrees with the
+    independent ephemeris for that state, and the getters show that state."""
+    ops = inp['ops']
+    i0 = inp['init']
+    st = {'lat': float(i0['lat']), 'lon': float(i0['lon']), 'tz': _eff_tz(float(i0['lon']), i0['tz']),
+          'north': float(i0['north']), 'leap': False}
+    sp = _new_sunpath(i0)
+    last = 'init'
+
+    def fail(step, what, required, observed, **kw):
+        return {'required': required, 'observed': 'step %d %r: %s' % (step, ops[step] if step < len(ops) else 'final getters', observed),
+                'sig': dict(kw, what=what, after=last)}
+
+    def getters(step):
+        """(field, value now, sun-level consequence) when the object no longer shows the established state AND some
+        sun it reports differs from the sun of that state (the property speaks about suns)."""
+        got = {'lat': sp.latitude, 'lon': sp.longitude, 'tz': sp.time_zone, 'north': sp.north_angle}
+        hit = None
+        for f in ('lat', 'lon', 'tz', 'north'):
+            if not _near(got[f], st[f], 1e-7 if f == 'lat' else TOL):
+                hit = (f, got[f])
+                break
+        if hit is None and sp.is_leap_year is not st['leap']:
+            hit = ('leap', sp.is_leap_year)
+        if hit is None:
+            return None
+        for probe in (['hoy', 4000.5, False], ['mdh', 6, 21, 9.0, False], ['mdh', 12, 21, 15.25, False],
+                      ['moy', 120000, True]):
+            try:
+                a = _apply_real(sp, probe)
+            except Exception as e:
+                a = e
+            b = _apply_real(_fresh_sunpath(st), probe)
+            d = ('call', 'a sun', 'raises %s' % type(a).__name__) if isinstance(a, Exception) else _sun_diff(a, b)
+            if d:
+                return hit + ('%r now gives %s %r instead of %r' % (probe, d[0], d[2], d[1]),)
+        return None
+
+    pending = None
+    for n, op in enumerate(ops + [['get']]):
+        k = op[0]
+        if pending is not None:
+            if not (k in SETTERS and SETTERS[k] == pending[0] and _spec_apply(dict(st), op)):
+                g = getters(n)
+                if g:
+                    return {'required': 'a refused %s(%r) leaves the object as it was (%s = %r)'
+                                        % (pending[1], pending[2], g[0], st.get(g[0])),
+                            'observed': '%s is now %r; %s' % (g[0], g[1], g[2]),
+                            'sig': {'what': 'refused-setter-applied', 'setter': pending[0]}}
+            pending = None
+        if k in READS:
+            try:
+                used, uexc = _apply_real(sp, op), None
+            except Exception as e:
+                used, uexc = None, e
+            try:
+                fresh, fexc = _apply_real(_fresh_sunpath(st), op), None
+            except Exception as e:
+                fresh, fexc = None, e
+            if (uexc is None) != (fexc is None) or (uexc is not None and err_name(uexc) != err_name(fexc)):
+                return fail(n, 'read-differs-from-fresh',
+                            'as a fresh Sunpath of the established state %r: %s' % (st, fexc or 'a sun'),
+                            uexc or 'a sun', entry=k)
+            if uexc is None:
+                d = _sun_diff(used, fresh)
+                if d:
+                    return fail(n, 'read-differs-from-fresh',
+                                '%s %r as a fresh Sunpath of the established state %r' % (d[0], d[1], st),
+                                '%s %r' % (d[0], d[2]), entry=k, observable=d[0])
+                ins = _read_instant(op, st)
+                solar = bool(op[-1])
+                if ins is not None and not (solar and abs(st['tz'] - st['lon'] / 15.0) > 1.0):
+                    h, az = _eph_expect(st['lat'], st['lon'], st['tz'], ins[0], ins[1], solar)
+                    bad = _eph_verdict(h, az, used.altitude, used.azimuth)
+                    if bad:
+                        return fail(n, 'ephemeris-' + bad[0], bad[1] + ' for the established state %r' % (st,),
+                                    bad[2], entry=k)
+            continue
+        if k == 'get':
+            g = getters(n)
+            if g:
+                return fail(n, 'getter', 'established %s = %r' % (g[0], st.get(g[0])), '%r; %s' % (g[1], g[2]), field=g[0])
+            continue
+        before = dict(st)
+        accepted = _spec_apply(st, op)
+        try:
+            _apply_real(sp, op)
+            exc = None
+        except Exception as e:
+            exc = e
+        if k in SETTERS or k == 'set_leap':
+            f = SETTERS.get(k, 'leap')
+            if accepted and exc is not None:
+                return fail(n, 'valid-value-refused', '%s accepts %r' % (k, op[1]), 'raises %s: %s'
+                            % (type(exc).__name__, exc), field=f)
+            if not accepted and exc is None:
+                g = getters(n)
+                if g:
+                    return fail(n, 'invalid-value-accepted',
+                                '%s(%r) is refused and the suns stay those of %r' % (k, op[1], st),
+                                'accepted: %s is now %r; %s' % (g[0], g[1], g[2]), field=f)
+                continue
+            if not accepted:
+                # a refused setter is judged by what is observable afterwards: the next step (unless it is an
+                # accepted setter of the same field) must see the object as it was
+                pending = (f, k, op[1])
+            else:
+                g = getters(n)
+                if g:
+                    return fail(n, 'getter', 'established %s = %r' % (g[0], st.get(g[0])), '%r; %s' % (g[1], g[2]), field=g[0])
+            last = k + ('' if accepted else ':refused')
+        else:
+            g = getters(n)
+            if g:
+                return fail(n, 'other-op-changed-state',
+                            'the suns of the established state after %s (%s = %r)' % (k, g[0], st.get(g[0])),
+                            '%s is now %r (the call %s); %s'
+                            % (g[0], g[1], 'raised %s' % type(exc).__name__ if exc else 'returned', g[2]),
+                            method=k, field=g[0], refused=exc is not None)
+            last = k + (':raised' if exc else '')
+    return None
+
+
+# ---- consumers of the sun producer (kind a: the untouched consumer shows the change)
+
+def _check_consumers(inp):
+    """Every public consumer of calculate_sun_from_date_time / Sun reports the suns of the producer: analemma_suns,
+    hourly_analemma_suns, Sun.position_3d / position_2d (both projections), altitude/azimuth in radians, hoy,
+    day_arc3d end points (suns of the sunrise / sunset date-times)."""
+    from ladybug.dt import DateTime, Time
+    from ladybug_geometry.geometry3d.pointvector import Point3D
+    from ladybug_geometry.geometry2d.pointvector import Point2D
+    sp = _sun_from(inp)
+    leap = bool(inp.get('leap'))
+    solar = bool(inp.get('solar'))
+    h, mi = inp['hour'], inp['minute']
+    start, end, steps = inp['start'], inp['end'], inp['steps']
+
+    def direct(mo, da, hh, mm):
+        return _sun_from(inp).calculate_sun_from_date_time(DateTime(mo, da, hh, mm, leap), solar)
+
+    got = sp.analemma_suns(Time(h, mi), False, solar, start, end, steps)
+    if steps == 1 and len(got) != max(0, end - start + 1):
+        return {'required': 'one sun per month: %d' % max(0, end - start + 1), 'observed': '%d suns' % len(got),
+                'sig': {'what': 'count', 'consumer': 'analemma_suns'}}
+    if start <= end and not got:
+        return {'required': 'suns for months %d..%d' % (start, end), 'observed': 'none',
+                'sig': {'what': 'count', 'consumer': 'analemma_suns'}}
+    for s in got:
+        dd = s.datetime
+        if (dd.hour, dd.minute) != (h, mi) or not (start <= dd.month <= end) or dd.leap_year != leap:
+            return {'required': 'suns at %d:%02d of months %d..%d of the sunpath year' % (h, mi, start, end),
+                    'observed': '%s (leap %s)' % (dd, dd.leap_year), 'sig': {'what': 'datetime', 'consumer': 'analemma_suns'}}
+        d = _sun_diff(s, direct(dd.month, dd.day, h, mi))
+        if d:
+            return {'required': 'the sun of %d/%d %d:%02d: %s %r' % (dd.month, dd.day, h, mi, d[0], d[1]),
+                    'observed': '%s %r' % (d[0], d[2]), 'sig': {'what': d[0], 'consumer': 'analemma_suns'}}
+    dayonly = sp.analemma_suns(Time(h, mi), True, solar, start, end, steps)
+    if [s.datetime for s in dayonly] != [s.datetime for s in got if s.altitude >= 0]:
+        return {'required': 'daytime_only keeps exactly the suns with altitude >= 0',
+                'observed': [str(s.datetime) for s in dayonly], 'sig': {'what': 'daytime_only', 'consumer': 'analemma_suns'}}
+    if inp.get('hourly'):
+        allh = sp.hourly_analemma_suns(False, solar, start, end, steps)
+        if len(allh) != 24:
+            return {'required': '24 analemmas', 'observed': len(allh), 'sig': {'what': 'count', 'consumer': 'hourly'}}
+        for hr in (0, h, 23):
+            if len(allh[hr]) != len(got):
+                return {'required': '%d suns' % len(got), 'observed': len(allh[hr]),
+                        'sig': {'what': 'count', 'consumer': 'hourly_analemma_suns'}}
+            for s0, s in zip(got, allh[hr]):
+                dd = s.datetime
+                if (dd.month, dd.day, dd.hour, dd.minute) != (s0.datetime.month, s0.datetime.day, hr, 0):
+                    return {'required': 'the days of the single analemma at %d:00' % hr, 'observed': str(dd),
+                            'sig': {'what': 'datetime', 'consumer': 'hourly_analemma_suns'}}
+                d = _sun_diff(s, direct(dd.month, dd.day, hr, 0))
+                if d:
+                    return {'required': 'the sun of %d/%d %d:00: %s %r' % (dd.month, dd.day, hr, d[0], d[1]),
+                            'observed': '%s %r' % (d[0], d[2]),
+                            'sig': {'what': d[0], 'consumer': 'hourly_analemma_suns'}}
+    # Sun-level consumers
+    for s in got[:3]:
+        rv = s.sun_vector_reversed
+        o3, rad = Point3D(1.5, -2.0, 0.25), 7.0
+        p = s.position_3d(o3, rad)
+        if not (_near(p.x, o3.x + rad * rv.x) and _near(p.y, o3.y + rad * rv.y) and _near(p.z, o3.z + rad * rv.z)):
+            return {'required': 'origin + radius * reversed vector', 'observed': (p.x, p.y, p.z),
+                    'sig': {'what': 'position_3d', 'consumer': 'Sun'}}
+        o2 = Point2D(1.5, -2.0)
+        q = s.position_2d('Orthographic', o2, rad)
+        if not (_near(q.x, o2.x + rad * rv.x) and _near(q.y, o2.y + rad * rv.y)):
+            return {'required': 'orthographic: (x, y) of the 3D position', 'observed': (q.x, q.y),
+                    'sig': {'what': 'position_2d', 'consumer': 'Sun', 'projection': 'orthographic'}}
+        if rv.z > -0.9:
+            q = s.position_2d('Stereographic', o2, rad)
+            ex, ey = o2.x + rad * rv.x / (1.0 + rv.z), o2.y + rad * rv.y / (1.0 + rv.z)
+            if not (_near(q.x, ex, 1e-7) and _near(q.y, ey, 1e-7)):
+                return {'required': 'stereographic projection %r' % ((ex, ey),), 'observed': (q.x, q.y),
+                        'sig': {'what': 'position_2d', 'consumer': 'Sun', 'projection': 'stereographic'}}
+        if not (_near(s.altitude_in_radians, math.radians(s.altitude)) and
+                _near(s.azimuth_in_radians, math.radians(s.azimuth))):
+            return {'required': 'radians of altitude / azimuth', 'observed': (s.altitude_in_radians, s.azimuth_in_radians),
+                    'sig': {'what': 'radians', 'consumer': 'Sun'}}
+        dd = s.datetime
+        if not _near(s.hoy, _moy_of(leap, dd.month, dd.day, dd.hour, dd.minute) / 60.0):
+            return {'required': 'hoy of the date-time', 'observed': s.hoy, 'sig': {'what': 'hoy', 'consumer': 'Sun'}}
+    # day arc: its end points are the suns of the sunrise / sunset date-times the object reports (C11 owns the times)
+    if inp.get('arc') and start <= end and 1 <= start <= 12:
+        try:
+            rs = sp.calculate_sunrise_sunset(start, 21)
+            arc = sp.day_arc3d(start, 21, Point3D(), 100.0)
+        except Exception:
+            rs, arc = None, None
+        if rs and arc is not None and rs['sunrise'] is not None:
+            for key, pt in (('sunrise', arc.p1), ('sunset', arc.p2)):
+                e = _sun_from(inp).calculate_sun_from_date_time(rs[key]).position_3d(Point3D(), 100.0)
+                if not (_near(pt.x, e.x, 1e-6) and _near(pt.y, e.y, 1e-6) and _near(pt.z, e.z, 1e-6)):
+                    return {'required': 'arc %s point = position of the sun at %s' % (key, rs[key]),
+                            'observed': (pt.x, pt.y, pt.z), 'sig': {'what': 'day_arc3d', 'consumer': key}}
+    return None
+
+
+def _check_location(inp):
+    """Sunpath.from_location over every way of making a Location (constructor, setters, duplicate, dict and IDF
+    serial forms, Location.from_location) gives the suns of Sunpath(latitude, longitude, time_zone); a Location
+    without a time zone uses the whole-hour zone of its longitude."""
+    from ladybug.location import Location
+    from ladybug.sunpath import Sunpath
+    lat, lon, tz, north = inp['lat'], inp['lon'], inp.get('tz'), inp.get('north', 0.0)
+    leap, moy, how = bool(inp.get('leap')), inp['moy'], inp['how']
+    etz = float(round(float(lon) / 15.0)) if tz is None else float(tz)
+    if how == 'ctor':
+        loc = Location('c', '-', 'k', lat, lon, tz, 12.0)
+    elif how == 'setters':
+        loc = Location('c')
+        loc.longitude = lon
+        loc.time_zone = tz
+        loc.latitude = lat
+    elif how == 'duplicate':
+        loc = Location('c', None, None, lat, lon, tz).duplicate()
+    elif how == 'dict':
+        loc = Location.from_dict(Location('c', None, None, lat, lon, tz).to_dict())
+    elif how == 'idf':
+        loc = Location.from_idf(Location('c', None, None, lat, lon, tz).to_idf())
+    else:
+        loc = Location.from_location(Location('c', None, None, lat, lon, tz))
+    sp = Sunpath.from_location(loc, north)
+    sp.is_leap_year = leap
+    ref = Sunpath(float(lat), float(lon), etz, north)
+    ref.is_leap_year = leap
+    sig = {'how': how, 'tz': 'none' if tz is None else 'zero' if float(tz) == 0 else 'nonzero'}
+    if not _near(sp.time_zone, etz) or not _near(sp.latitude, float(lat), 1e-7) or not _near(sp.longitude, float(lon)):
+        return {'required': 'latitude %r longitude %r time zone %r' % (lat, lon, etz),
+                'observed': (sp.latitude, sp.longitude, sp.time_zone), 'sig': dict(sig, what='configuration')}
+    a, b = sp.calculate_sun_from_moy(moy), ref.calculate_sun_from_moy(moy)
+    d = _sun_diff(a, b)
+    if d:
+        return {'required': '%s %r' % (d[0], d[1]), 'observed': '%s %r' % (d[0], d[2]), 'sig': dict(sig, what=d[0])}
+    h, az = _eph_expect(float(lat), float(lon), etz, leap, moy, False)
+    bad = _eph_verdict(h, az, a.altitude, a.azimuth)
+    if bad:
+        return {'required': bad[1], 'observed': bad[2], 'sig': dict(sig, what='ephemeris-' + bad[0])}
+    return None
+
+
+# ---- process-order independence (fresh Python subprocesses, different seeded orders of the same cases)
+
+ORDER_OPS = ('ephemeris', 'entry', 'history', 'consumers', 'location', 'sunvec', 'refused')
+
+
+def _check_refused(inp):
+    """A call the code refuses (invalid date, hour of year outside the year) is refused, whatever ran before."""
+    sp = _sun_from(inp)
+    try:
+        _apply_real(sp, inp['call'])
+    except Exception:
+        return None
+    return {'required': 'the call %r is refused' % (inp['call'],), 'observed': 'returned',
+            'sig': {'what': 'accepted', 'entry': inp['call'][0]}}
+
+
+def _fingerprint(op, inp):
+    """What one case computes, as exact values (compared between processes)."""
+    try:
+        if op in ('ephemeris', 'sunvec', 'entry'):
+            s = _sun_from(inp).calculate_sun_from_moy(inp['moy'], bool(inp.get('solar')))
+            return [_fbits(s.altitude), _fbits(s.azimuth), _fbits(s.sun_vector.x), _fbits(s.sun_vector.z)]
+        if op == 'history':
+            return _run_history_real(inp)
+        if op == 'location':
+            from ladybug.location import Location
+            from ladybug.sunpath import Sunpath
+            sp = Sunpath.from_location(Location('c', None, None, inp['lat'], inp['lon'], inp.get('tz')))
+            s = sp.calculate_sun_from_moy(inp['moy'])
+            return [_fbits(s.altitude), _fbits(s.azimuth)]
+        if op == 'consumers':
+            from ladybug.dt import Time
+            got = _sun_from(inp).analemma_suns(Time(inp['hour'], inp['minute']), False, bool(inp.get('solar')),
+                                               inp['start'], inp['end'], inp['steps'])
+            return [_fbits(s.altitude) + _fbits(s.azimuth) for s in got]
+        if op == 'refused':
+            try:
+                _apply_real(_sun_from(inp), inp['call'])
+                return 'returned'
+            except Exception as e:
+                return 'err:' + err_name(e)
+    except Exception as e:
+        return 'err:' + err_name(e)
+    return None
+
+
+def _order_worker():
+    """Entry of the fresh subprocess: evaluates the cases of stdin (JSON) in the given order."""
+    import json
+    import sys
+    sys.path.insert(0, core.REPO)
+    job = json.load(sys.stdin)
+    out = []
+    for op, inp in job['cases']:
+        try:
+            res = check_case(op, inp)
+        except Exception as e:
+            res = {'required': 'oracle evaluates', 'observed': 'exception %s: %s' % (type(e).__name__, e),
+                   'sig': {'exception': type(e).__name__}}
+        out.append([res, _fingerprint(op, inp)])
+    json.dump(out, sys.stdout, default=str)
+
+
+def _spawn_order(cases):
+    import json
+    import subprocess
+    import sys
+    code = ('import sys; sys.path.insert(0, %r); from harness.props import c05; c05._order_worker()' % core.ROOT)
+    return subprocess.Popen([sys.executable, '-c', code], stdin=subprocess.PIPE, stdout=subprocess.PIPE,
+                            stderr=subprocess.PIPE, cwd=core.ROOT), json.dumps({'cases': cases}, default=str)
+
+
+def _run_orders(orders):
+    """Run each order in its own fresh process (concurrently); returns the list of result lists."""
+    import json
+    procs = [_spawn_order(o) for o in orders]
+    outs = []
+    for p, data in procs:
+        so, se = p.communicate(data.encode('utf-8'), timeout=900)
+        if p.returncode != 0:
+            raise RuntimeError('order worker failed: %s' % se.decode('utf-8', 'replace')[-800:])
+        outs.append(json.loads(so.decode('utf-8')))
+    return outs
+
+
+def _check_order(inp):
+    """Replay of a process-order failure: the cases of inp['order'] run in this order in ONE fresh process; the last
+    one must satisfy its own check and compute exactly what it computes alone in a fresh process."""
+    order = inp['order']
+    if not order:
+        try:
+            _run_orders([[]])
+        except RuntimeError as e:
+            return {'required': 'the order workers run', 'observed': str(e)[:500], 'sig': {'what': 'worker-crash'}}
+        return None
+    last = order[-1]
+    together, alone = _run_orders([order, [last]])
+    res, fp = together[-1]
+    res0, fp0 = alone[0]
+    sig = {'what': 'process-order', 'case': last[0], 'first': order[0][0] if len(order) > 1 else last[0]}
+    if res is not None and res0 is None:
+        return {'required': 'case %r passes as it does alone in a fresh process' % (last,),
+                'observed': 'after %d earlier case(s): %s' % (len(order) - 1, res.get('observed')), 'sig': sig}
+    if fp != fp0:
+        return {'required': 'the values it computes alone in a fresh process: %r' % (fp0,),
+                'observed': 'after %d earlier case(s) in the same process: %r' % (len(order) - 1, fp), 'sig': sig}
+    if res is not None:
+        return {'required': res.get('required'), 'observed': res.get('observed'), 'sig': res.get('sig')}
+    return None
+
+
+def _order_cases(ctx):
+    """The slice of cases whose order is varied: a few calendar instants asked under configurations that differ in
+    ONE respect (year kind, zone, latitude, longitude, north, solar flag), histories, consumers, refused calls."""
+    rng = ctx.rng
+    bm = {False: _boundary_moys(False), True: _boundary_moys(True)}
+    cases = []
+    for _ in range(ctx.n(6, 16)):
+        base = _rand_cfg(rng, north=False)
+        mo, da = rng.randrange(3, 13), rng.randrange(1, 29)
+        h, mi = rng.randrange(24), rng.randrange(60)
+        variants = [base, base[:4] + (not base[4],), (base[0], base[1], rng.choice(TZS), base[3], base[4]),
+                    (-base[0], base[1], base[2], base[3], base[4]), (base[0], -base[1], base[2], base[3], base[4]),
+                    (base[0], base[1], base[2], 90.0, base[4]), (base[0], base[1], 0.0, base[3], not base[4])]
+        for v in variants:
+            cases.append(['ephemeris', _cfg_inp(v, moy=_moy_of(v[4], mo, da, h, mi),
+                                                solar=rng.random() < 0.15 and _solar_ok(v))])
+        cases.append(['entry', _cfg_inp(base, moy=_moy_of(base[4], mo, da, h, mi), solar=False)])
+        cases.append(['consumers', _cfg_inp(base, hour=h, minute=rng.choice([0, 30]), start=rng.choice([1, 2, 11]),
+                                            end=12, steps=rng.choice([1, 2, 3]), solar=False)])
+        cases.append(['location', _cfg_inp(base, tz=rng.choice([None, 0, base[2]]),
+                                           moy=_moy_of(base[4], mo, da, h, mi), how='ctor')])
+        calls = [['mdh', 2, 30, 12.0, False], ['moy', 600000, False], ['hoy', 9000.0, False], ['mdh', 13, 1, 1.0, False]]
+        if not base[4]:
+            calls += [['mdh', 2, 29, 12.0, False], ['moy', 525600, False], ['hoy', 8760.0, False]]
+        cases.append(['refused', _cfg_inp(base, call=rng.choice(calls))])
+    for _ in range(ctx.n(40, 150)):
+        cases.append(['history', _gen_history(rng, bm, True)])
+    return cases
+
+
+def _rare_first_key(case):
+    op, inp = case
+    if op == 'refused':
+        return 0
+    if op == 'history':
+        return 1 if inp['ops'] and inp['ops'][0] == ['set_leap', True] else 4
+    if inp.get('leap'):
+        return 2
+    if inp.get('solar') or inp.get('tz') in (0, 0.0, None):
+        return 3
+    return 5
+
+
+def _oracle_process_order(ctx):
+    """Run the order slice in fresh subprocesses (different seeded orders, rare classes first in one of them) and
+    compare every case with itself across the processes."""
+    rng = ctx.rng
+    cases = _order_cases(ctx)
+    nproc = 3 if ctx.quick else 4
+    orders = [list(cases)]
+    orders.append(sorted(cases, key=_rare_first_key))            # refused calls, leap year, zero zones first
+    o3 = list(cases)
+    o3.reverse()
+    orders.append(o3)
+    while len(orders) < nproc:
+        o = list(cases)
+        rng.shuffle(o)
+        orders.append(o)
+    results = _run_orders(orders)
+    ctx.count('order:processes', len(orders))
+    ctx.count('order:cases_per_process', len(cases))
+    import json
+    key = lambda c: json.dumps(c, sort_keys=True, default=str)
+    ref = {}
+    for o, rs in zip(orders, results):
+        for i, (c, (res, fp)) in enumerate(zip(o, rs)):
+            ctx.evaluations += 1
+            ctx.subclaim('process_order_independence', True)
+            k = key(c)
+            bad = None
+            if res is not None:
+                bad = 'check'
+            elif k in ref and ref[k][0] != fp:
+                bad = 'values'
+            ref.setdefault(k, (fp, o, i))
+            if bad:
+                other = ref[k]
+                alone = _run_orders([[c]])[0][0]
+                if alone[0] is not None:
+                    # fails alone in a fresh process too: an ordinary failing input
+                    ctx.fail(c[0], c[1], alone[0].get('required'), alone[0].get('observed'), alone[0].get('sig'))
+                    return
+                # passes alone: something an earlier case left behind in the process
+                for oo, ii in ((o, i), (other[1], other[2])):
+                    inp = {'order': _shrink_order(oo[:ii + 1])}
+                    r = _check_order(inp)
+                    if r:
+                        ctx.subclaims['process_order_independence']['failures'] += 1
+                        ctx.fail('order', inp, r.get('required'), r.get('observed'), r.get('sig'))
+                        return
+
+
+def _confirm_first_failure(ctx, stream):
+    """A failure of the main stream must be replayable: when its input passes alone in a fresh process, the failure
+    depends on what ran before it in this process; it is then reported as an `order` replay (the shortest tail of the
+    stream found that still makes it fail in a fresh process)."""
+    known = core.load_known(PROP)
+    first = None
+    for f in ctx.failures:
+        if not any(core.matches(f['sig'], k) for k in known):
+            first = f
+            break
+    if first is None or first['op'] == 'order':
+        return
+    case = [first['op'], first['input']]
+    try:
+        alone = _run_orders([[case]])[0][0]
+    except Exception:
+        return
+    if alone[0] is not None:
+        return
+    idx = None
+    for i, c in enumerate(stream):
+        if c[0] == case[0] and c[1] is first['input']:
+            idx = i
+            break
+    if idx is None:
+        return
+    order = [list(c) for c in stream[max(0, idx - 3000):idx]] + [case]
+    inp = {'order': order}
+    r = _check_order(inp)
+    if not r:
+        return
+    inp = {'order': _shrink_order(order)}
+    r = _check_order(inp) or r
+    ctx.failures.insert(0, {'op': 'order', 'input': inp, 'required': r.get('required'),
+                            'observed': r.get('observed'), 'sig': dict(r.get('sig') or {}, op='order')})
+
+
+def _shrink_order(order):
+    """Shorten a failing order (the last case is the failing one): keep halving the prefix while the replay fails."""
+    last = order[-1]
+    prefix = order[:-1]
+    budget = 14
+    while len(prefix) > 1 and budget > 0:
+        half = len(prefix) // 2
+        a, b = prefix[:half], prefix[half:]
+        budget -= 2
+        if _check_order({'order': b + [last]}):
+            prefix = b
+        elif _check_order({'order': a + [last]}):
+            prefix = a
+        else:
+            break
+    return prefix + [last]
+
+
 CHECKS = {
     'ephemeris': (_check_ephemeris, 'ephemeris_agreement_0.05deg'),
     'entry': (_check_entry, 'entry_points_same_sun'),
@@ -659,6 +1683,11 @@ CHECKS = {
     'solar_tz': (_check_solar_tz, 'solar_time_sun_independent_of_zone'),
     'vector': (_check_vector, 'sun_vector_identities'),
     'sunvec': (_check_sunvec, 'sun_vector_identities'),
+    'history': (_check_history, 'history_on_one_object_equals_fresh_object_and_ephemeris'),
+    'consumers': (_check_consumers, 'consumers_report_the_producers_suns'),
+    'location': (_check_location, 'from_location_same_sun'),
+    'refused': (_check_refused, 'refused_calls_are_refused'),
+    'order': (_check_order, 'process_order_independence'),
 }
 
 
@@ -685,6 +1714,36 @@ CORPUS = [
     ('vector', {'alt': 0.0, 'az': 180.0, 'north': 0.0}),
     ('vector', {'alt': -0.0, 'az': 10.0, 'north': 90.0}),
     ('vector', {'alt': 90.0, 'az': 0.0, 'north': -360.0}),
+    # round 3: histories on one object.  Witnesses of the known finding C05-refused-setter-applied (the four
+    # setters assign before they validate) ...
+    ('history', {'init': {'lat': 40.0, 'lon': -74.0, 'tz': -5.0, 'north': 0.0},
+                 'ops': [['moy', 100000, False], ['set_lat', 100], ['moy', 100000, False]]}),
+    ('history', {'init': {'lat': 40.0, 'lon': -74.0, 'tz': -5.0, 'north': 0.0},
+                 'ops': [['set_lon', 200.0], ['mdh', 3, 21, 12.0, False]]}),
+    ('history', {'init': {'lat': 40.0, 'lon': -74.0, 'tz': -5.0, 'north': 0.0},
+                 'ops': [['set_tz', 15], ['mdh', 3, 21, 12.0, False]]}),
+    ('history', {'init': {'lat': 40.0, 'lon': -74.0, 'tz': -5.0, 'north': 0.0},
+                 'ops': [['set_north', 400], ['mdh', 3, 21, 12.0, False]]}),
+    # ... and regression shapes: the same question before / after a change of year kind, a leap DateTime after a
+    # non-leap one, a refused method between two reads on a leap-year object, zone 0 away from Greenwich
+    ('history', {'init': {'lat': 40.72, 'lon': -74.02, 'tz': -5, 'north': 0},
+                 'ops': [['mdh', 3, 21, 12.0, False], ['mdh', 10, 5, 8.0, False], ['set_leap', True],
+                         ['mdh', 3, 21, 12.0, False], ['mdh', 10, 5, 8.0, False], ['set_leap', False],
+                         ['mdh', 3, 21, 12.0, False], ['dt', 3, 21, 12, 0, True, False], ['dt', 3, 21, 12, 0, False, False]]}),
+    ('history', {'init': {'lat': -33.87, 'lon': 151.22, 'tz': 10, 'north': 0},
+                 'ops': [['set_leap', True], ['mdh', 3, 21, 9.5, False], ['hourly_analemma', False, False, 1, 12, 30],
+                         ['get'], ['mdh', 3, 21, 9.5, False], ['hoy', 1929.5, False],
+                         ['analemma', 12, 0, False, False, 0, 12, 1], ['mdh', 2, 29, 12.0, False],
+                         ['day_poly2d', 3, 21, 'bad'], ['riseset', 2, 30, 0.5334, False], ['moy', 115770, False]]}),
+    ('history', {'init': {'lat': 64.13, 'lon': -21.9, 'tz': 0, 'north': 0},
+                 'ops': [['get'], ['mdh', 6, 1, 15.0, False], ['set_tz', None], ['get'], ['set_tz', 0.0], ['get'],
+                         ['mdh', 6, 1, 15.0, False], ['set_lon', 0], ['set_lat', 0], ['set_north', 0], ['get'],
+                         ['moy', 0, False]]}),
+    ('location', {'lat': 64.13, 'lon': -21.9, 'tz': 0, 'north': 0.0, 'leap': False, 'moy': 218340, 'how': 'ctor'}),
+    ('location', {'lat': 14.69, 'lon': -17.44, 'tz': None, 'north': 0.0, 'leap': True, 'moy': 218340, 'how': 'dict'}),
+    ('consumers', {'lat': 40.7128, 'lon': -74.006, 'tz': -5.0, 'north': 0.0, 'leap': True, 'hour': 12, 'minute': 0,
+                   'start': 1, 'end': 12, 'steps': 1, 'solar': False, 'hourly': True, 'arc': True}),
+    ('refused', {'lat': 10.0, 'lon': 20.0, 'tz': 1.0, 'north': 0.0, 'leap': False, 'call': ['mdh', 2, 29, 12.0, False]}),
 ]
 
 
@@ -764,6 +1823,34 @@ def _oracle_cases(ctx):
     for _ in range(1500 if not big else 20000):
         c = _rand_cfg(rng)
         yield 'sunvec', _cfg_inp(c, moy=_rand_moy(rng, c[4], bm), solar=rng.random() < 0.2)
+    # round 3: histories on one object, consumers, locations, refused calls
+    for _ in range(1500 if not big else 10000):
+        h = _gen_history(rng, bm, True)
+        ctx.count('hist:ops', len(h['ops']))
+        for o in h['ops']:
+            ctx.count('histop:' + o[0])
+        yield 'history', h
+    for _ in range(150 if not big else 1500):
+        c = _rand_cfg(rng)
+        yield 'consumers', _cfg_inp(c, hour=rng.randrange(24), minute=rng.choice([0, 30, 59]),
+                                    start=rng.choice([1, 1, 2, 6, 12]), end=rng.choice([12, 12, 3, 6, 1]),
+                                    steps=rng.choice([1, 1, 2, 3, 4, 7, 28]), solar=rng.random() < 0.2,
+                                    hourly=rng.random() < 0.3, arc=rng.random() < 0.5)
+    for _ in range(800 if not big else 8000):
+        c = _rand_cfg(rng)
+        tz = rng.choice([None, 0, 0.0, c[2], c[2], 5.5, -3, float(max(-12, min(14, round(c[1] / 15.0))))])
+        ctx.count('location:tz_' + ('none' if tz is None else 'zero' if tz == 0 else 'other'))
+        yield 'location', _cfg_inp(c, tz=tz, moy=_rand_moy(rng, c[4], bm),
+                                   how=rng.choice(['ctor', 'setters', 'duplicate', 'dict', 'idf', 'from_location']))
+    for _ in range(200 if not big else 2000):
+        c = _rand_cfg(rng)
+        n = 1440 * _ydays(c[4])
+        calls = [['mdh', 2, 30, 12.0, False], ['moy', n, False], ['moy', n + rng.randrange(10 ** 6), True],
+                 ['hoy', n / 60.0, False], ['mdh', 13, 1, 1.0, False], ['mdh', 0, 1, 1.0, False], ['mdh', 4, 31, 0.0, False],
+                 ['mdh', 1, 1, 24.0, False], ['mdh', 6, 0, 1.0, True]]
+        if not c[4]:
+            calls += [['mdh', 2, 29, 12.0, False], ['mdh', 2, 29, 0.0, True]]
+        yield 'refused', _cfg_inp(c, call=rng.choice(calls))
 
 
 def _dense_ephemeris(args):
@@ -786,12 +1873,22 @@ def _dense_ephemeris(args):
 
 
 def oracle(ctx):
+    stream = []
+
     def chk(op, inp):
+        stream.append((op, inp))
         res = check_case(op, inp)
         ctx.subclaim(CHECKS[op][1], res is None)
         return res
 
+    # fresh subprocesses first (their verdict does not depend on what this process has already computed)
+    try:
+        _oracle_process_order(ctx)
+    except RuntimeError as e:
+        ctx.fail('order', {'order': []}, 'the order workers run', str(e)[:500], {'what': 'worker-crash'})
     run_oracle_cases(ctx, _oracle_cases(ctx), chk)
+    if len(ctx.failures) > 0:
+        _confirm_first_failure(ctx, stream)
     if not ctx.quick and not any(f['op'] == 'ephemeris' for f in ctx.failures):
         # dense sweep: lat x lon x tz configurations, every 7th minute of both years, 4 worker processes
         import multiprocessing
@@ -818,7 +1915,10 @@ LEVEL_TEXT = ('Machine-checked Lean 4 theorems over the real-number instance of 
               'is_during_day <=> altitude >= 0; the sun vector is a unit vector equal to -R_z(north) applied to '
               '(sin az cos alt, cos az cos alt, sin alt) and points down exactly by day; azimuth quadrant and hour '
               'angle ranges; the 2016/2017 day-count literals equal the general formula; solar noon maximises the '
-              'geometric altitude for a fixed declination. PARTIAL: agreement with the independent ephemeris '
+              'geometric altitude for a fixed declination; one object under any history of setters, reads and other '
+              'methods is the fresh object of the established configuration (no numeric setter refused), reads are pure, '
+              'refused reads / unconvertible arguments change nothing, the getters determine the object; COUNTEREXAMPLE: '
+              'a numeric setter refused by its assertion keeps the refused value (known finding). PARTIAL: agreement with the independent ephemeris '
               '(0.05 deg), time-zone shift invariance and the noon claim on the real code are sampled sub-claims.')
 LEVEL_NOTE = ('Trusted: Lean kernel; axioms propext/Classical.choice/Quot.sound only; correspondence on generated '
               'inputs only; IEEE/libm vs real arithmetic not proved; ladybug_geometry rotations transcribed; the '
